@@ -376,6 +376,8 @@ def run(run):
     cs = cases(run.tier, run.seed)
     for c in cs:
         c['nseeds'] = 4 if run.quick else 16
+    # deterministic interleaving: the expensive tables (many unit counts) are spread over all chunks
+    cs = [x for k in range(512) for x in cs[k::512]]
     P.run_cases(run, cs, check, nchunks=512)
     run.extra['bound'] = {'tables': len(table_specs(run.tier)), 'cases': len(cs),
                           'entry_ranges': '2x2: 0..3, n 1..4; 1x3/3x1: 0..2, n 1..3; 2x3/3x2: 0..%d' % (1 if run.quick else 2),
